@@ -13,6 +13,9 @@ Proof. unfold m24. pose proof (frac_range a). lia. Qed.
 Lemma He : 1 <= e <= 254.
 Proof. exact (proj2 Hn). Qed.
 
+Lemma mag_em : mag a = m24 * 2 ^ e.
+Proof. reflexivity. Qed.
+
 Lemma real_e_val : fp_real_e a = if e <=? 126 then e + 129 else e - 127.
 Proof.
   pose proof He. unfold fp_real_e, sub_w. rewrite fp_e_expo. fold e.
@@ -97,9 +100,9 @@ Lemma fp2int_gen_normal hi :
    (e <=? 126) || negb (rng hi 0 (f2i_shifted a) =? 0), false, (158 <=? e)).
 Proof.
   destruct not_denorm as [Hd Hz]. unfold fp2int_gen. rewrite Hd, Hz, small_bit, too_big_val, fp_s_negative by exact (proj1 Hn).
-  cbv zeta. unfold mux2. simpl negb. rewrite !orb_true_l, !andb_true_l. simpl (false && _). simpl orb.
-  rewrite andb_true_r. 
-  replace (Z.lor (Z.lor 0 (if e <=? 126 then 0 else 0)) ) with (Z.lor 0) by (destruct (e <=? 126); reflexivity).
+  cbv zeta. unfold mux2. cbn [negb andb orb].
+  rewrite ?andb_true_r, ?andb_false_r, ?orb_false_r.
+  replace (Z.lor 0 (if e <=? 126 then 0 else 0)) with 0 by (destruct (e <=? 126); reflexivity).
   rewrite Z.lor_0_l. reflexivity.
 Qed.
 
@@ -107,7 +110,7 @@ Lemma in_range_exp : fp2int_in_range a <-> e <= 157.
 Proof.
   pose proof He. pose proof Hm24. unfold fp2int_in_range. 
   replace (Z.abs (sval a)) with (m24 * 2 ^ e).
-  2:{ rewrite sval_mag. pose proof (mag_pos a). unfold mag in *. fold e m24 in *. destruct (negative a); lia. }
+  2:{ rewrite sval_mag. pose proof (mag_pos a) as Hp. rewrite mag_em in *. destruct (negative a); lia. }
   replace (2 ^ 31 * 2 ^ 150) with (2 ^ 181) by (rewrite <- Z.pow_add_r by lia; reflexivity). split.
   - intros Hlt. pose proof (exp_upper m24 e 181 23 ltac:(lia) ltac:(lia) ltac:(lia) Hlt). lia.
   - intros Hle. pose proof (pow2_le e 157 ltac:(lia)). pose proof (pow2_pos e ltac:(lia)).
@@ -126,7 +129,7 @@ Qed.
 Lemma mag_shifted : 127 <= e <= 157 ->
   mag a / 2 ^ 150 = f2i_shifted a / 2 ^ 32 /\ mag a mod 2 ^ 150 = (f2i_shifted a mod 2 ^ 32) * 2 ^ 118.
 Proof.
-  intros Hmid. rewrite shifted_mid by assumption. unfold mag. fold e m24.
+  intros Hmid. rewrite shifted_mid by assumption. rewrite mag_em.
   replace (2 ^ e) with (2 ^ (e - 118) * 2 ^ 118) by (rewrite <- Z.pow_add_r by lia; f_equal; lia).
   replace (2 ^ 150) with (2 ^ 32 * 2 ^ 118) by (rewrite <- Z.pow_add_r by lia; reflexivity).
   rewrite Z.mul_assoc. split.
@@ -136,7 +139,7 @@ Qed.
 
 Lemma mag_small : e <= 126 -> mag a / 2 ^ 150 = 0 /\ mag a mod 2 ^ 150 <> 0.
 Proof.
-  intros Hs. pose proof He. pose proof Hm24. pose proof (mag_pos a) as Hp. unfold mag in *. fold e m24 in *.
+  intros Hs. pose proof He. pose proof Hm24. pose proof (mag_pos a) as Hp. rewrite mag_em in *.
   assert (m24 * 2 ^ e < 2 ^ 150).
   { replace (2 ^ 150) with (2 ^ 24 * 2 ^ 126) by (rewrite <- Z.pow_add_r by lia; reflexivity).
     pose proof (pow2_le e 126 ltac:(lia)). pose proof (pow2_pos e ltac:(lia)). nia. }
@@ -149,7 +152,10 @@ Lemma fp2int_outputs hi r pl dn inv : fp2int_gen hi a = (r, pl, dn, inv) -> (hi 
      word r /\ sgn 32 r = fp2int_value a /\
      (pl = true <-> (fp2int_discarded a \/ (hi = 32 /\ Z.odd (fp2int_value a) = true)))).
 Proof.
-  rewrite fp2int_gen_normal. intros Heq Hhi. injection Heq as Hr Hpl Hdn Hinv. pose proof He as He'.
+  rewrite fp2int_gen_normal. intros Heq Hhi.
+  pose proof (f_equal (fun t => fst (fst (fst t))) Heq) as Hr. pose proof (f_equal (fun t => snd (fst (fst t))) Heq) as Hpl.
+  pose proof (f_equal (fun t => snd (fst t)) Heq) as Hdn. pose proof (f_equal (fun t => snd t) Heq) as Hinv.
+  cbv beta in Hr, Hpl, Hdn, Hinv. cbn [fst snd] in Hr, Hpl, Hdn, Hinv. clear Heq. pose proof He as He'.
   split; [symmetry; exact Hdn|]. split.
   - rewrite in_range_exp. subst inv. destruct (Z.leb_spec 158 e); split; intros; try discriminate; try reflexivity; lia.
   - intros Hin. rewrite in_range_exp in Hin. destruct value_quot as [Hv Hdisc]. rewrite Hv, Hdisc.
